@@ -60,6 +60,13 @@ def parse_template(text):
     while i < n:
         ln = lines[i]
         d = DIRECTIVE.match(ln)
+        if d and d.group(1) == 'consts':
+            crate, _, path = d.group(2).partition('::')
+            spec = ItemSpec(crate.strip(), path.strip(), i + 1)
+            spec.indent = re.match(r'\s*', ln).group(0)
+            out.append(('consts', spec))
+            i += 1
+            continue
         if d and d.group(1) == 'import':
             u, _, rest = d.group(2).partition('::')
             crate, _, path = rest.partition('::')
@@ -495,6 +502,27 @@ def build_unit(name, template_text, sources, read_template=None):
     for p in parts:
         if p[0] == 'line':
             lines.append(GenLine(p[1], ('tmpl', p[2])))
+        elif p[0] == 'consts':
+            # every `const` item directly inside the named module, verbatim (new constants follow automatically)
+            spec = p[1]
+            src = sources[spec.crate]
+            parent = src.resolve(spec.path) if spec.path else None
+            have = '\n'.join(l.text for l in lines)
+            for it in src.children(parent):
+                if it.kind == 'const' and it.name:
+                    # primitive-typed constants only (a const initialiser of a shimmed type cannot be const-evaluated)
+                    if not re.search(r'const\s+%s\s*:\s*(u8|u16|u32|u64|u128|usize|i8|i16|i32|i64|isize|f32|f64|bool|char|&\s*(\'static\s+)?str)\s*=' % re.escape(it.name), src.item_text(it)) \
+                            and not re.search(r'const\s+%s\s*:\s*Duration\s*=\s*Duration::from_(millis|secs)\(\s*[0-9_]+\s*\)' % re.escape(it.name), src.item_text(it)):
+                        continue
+                    if re.search(r'(?<![A-Za-z0-9_])const\s+%s\s*:' % re.escape(it.name), have):
+                        continue
+                    sub = ItemSpec(spec.crate, (spec.path + ' > ' if spec.path else '') + 'const ' + it.name, spec.tline)
+                    sub.indent = spec.indent
+                    gl, item = build_item(src, sub, idx, log)
+                    first = len(lines) + 1
+                    lines.extend(gl)
+                    items.append((sub, item, first, len(lines)))
+                    idx += 1
         elif p[0] == 'import':
             spec = p[1]
             if spec.crate not in sources:
